@@ -459,11 +459,11 @@ def inputs(tier: str):
     if tier == "quick":
         groups = {
             "plain": list(gen.plain_specs(4)),
-            "typed": list(gen.typed_specs(3, alphabet=("a", "b", "c"))),
+            "typed": list(gen.typed_specs(3, alphabet=("a", "b", "c"))) + list(gen.typed_specs(4, min_n=4)),
             "equal data under distinct ids": list(gen.eqpair_specs(3)),
             "data_id 0": list(zero_id_specs(3)),
         }
-        words = "plain forests <= 4 nodes over {a,b,c}; typed forests <= 3 nodes over {a,b,c} x kinds {k1,k2}; equal-data pairs <= 3 nodes; one node with data_id 0 (<= 3 nodes)"
+        words = "plain forests <= 4 nodes over {a,b,c}; typed forests <= 3 nodes over {a,b,c} and with 4 nodes over {a,b} (at most 2 siblings) x kinds {k1,k2}; equal-data pairs <= 3 nodes; one node with data_id 0 (<= 3 nodes)"
     else:
         groups = {
             "plain": list(gen.plain_specs(5)),
